@@ -505,7 +505,7 @@ func TestC39(t *testing.T) {
 	defer r.Finish()
 	r.Rule("signature-entry lists built from tagged signatures: single-key {valid, other hash, foreign key, corrupted, empty, garbage, none}; m-of-n with n ∈ {2,3,5,15,16,17}+random, m ∈ {0,1,mid,n,n+1,65535} × " +
 		"{exactly m distinct signers in any order, m-1, m-1 plus an invalid one, one signature repeated m times, one key signing twice, all n, surplus junk, duplicate listed key}; " +
-		"transactions with 1..18 entries, all valid or exactly one invalid at a random position, keys of 4 algorithms; distinct = (shape, per entry n, m, key algorithms, signature tags in order)")
+		"transactions with 1..18 entries, all valid or exactly one invalid at a random position, keys of 4 algorithms; every judged case is validated on a fresh object and again on an object whose GetSignatureAddresses() was called first (the tx pool order); distinct = (shape, per entry n, m, key algorithms, signature tags in order)")
 	r.Assume("'m distinct listed keys' is read per list position: a key listed twice counts as two positions (DESIGN §8); the address commits to the duplicated list")
 	r.Assume("cases where the strict and the weak reading of an entry differ (surplus or invalid signatures next to m valid ones, single key with m != 1, zero entries) are executed and counted but not judged")
 	r.Assume("SignedAddr is compared as a set (duplicate entries collapse)")
@@ -699,6 +699,55 @@ func TestC39(t *testing.T) {
 				r.Violation("get-signature-addresses-differs", fmt.Sprintf("err=%v", err), describe(c))
 			}
 		}
+		// the order the node uses for transactions from the network: the tx pool actor first asks
+		// the transaction for its signature addresses (Transaction.GetSignatureAddresses fills the
+		// attribution from the CLAIMED keys), then hands the same object to the stateless validator.
+		{
+			txa, _ := types.TransactionFromRawBytes(append([]byte{}, baseRaw...))
+			txa.Sigs = toSigs(c)
+			var codeA ontErrors.ErrCode
+			if p := kit.Catch(func() {
+				txa.GetSignatureAddresses()
+				codeA = validation.VerifyTransaction(txa)
+			}); p != nil {
+				r.Violation("validator-panic-after-address-query:"+c.shape, fmt.Sprintf("%v", p), describe(c))
+				continue
+			}
+			passedA := codeA == ontErrors.ErrNoError
+			r.Eval(1)
+			if want == mustFail && passedA {
+				r.Violation("invalid-accepted-after-address-query:"+c.shape, fmt.Sprintf("%s: %s — GetSignatureAddresses() followed by VerifyTransaction on the same transaction accepted it", c.shape, why), describe(c))
+				continue
+			}
+			if want == mustPass && !passedA {
+				r.Violation("valid-rejected-after-address-query:"+c.shape, fmt.Sprintf("returned %v", codeA), describe(c))
+				continue
+			}
+			if want == mustFail {
+				r.Count("preattributed_invalid_rejected", 1)
+			} else {
+				wantA := map[common.Address]bool{}
+				for _, e := range c.entries {
+					wantA[refAddress(e.keys, e.m)] = true
+				}
+				gotA := map[common.Address]bool{}
+				for _, a := range txa.SignedAddr {
+					gotA[a] = true
+				}
+				sameA := len(wantA) == len(gotA)
+				for a := range wantA {
+					if !gotA[a] {
+						sameA = false
+					}
+				}
+				if !sameA {
+					r.Violation("signed-addr-differs-after-address-query:"+c.shape, fmt.Sprintf("attributed %d address(es), entries have %d", len(gotA), len(wantA)), describe(c))
+					continue
+				}
+				r.Count("preattributed_valid_accepted", 1)
+			}
+			r.Distinct("after-address-query", fingerprint(c))
+		}
 		// wire path for a third of the judged cases: the same entries after encode/decode
 		if ci%3 == 0 && serializable(c) {
 			tx2, _ := types.TransactionFromRawBytes(append([]byte{}, baseRaw...))
@@ -725,6 +774,8 @@ func TestC39(t *testing.T) {
 		}
 	}
 	r.Set("cases", len(cases))
+	r.Require("preattributed_invalid_rejected", len(cases)/4)
+	r.Require("preattributed_valid_accepted", len(cases)/20)
 	r.Require("valid_accepted", len(cases)/20)
 	r.Require("invalid_rejected", len(cases)/4)
 	r.Require("signed_addr_matches", len(cases)/20)
